@@ -119,6 +119,21 @@ def run(ctx):
             if r2 != s:
                 st['prop_failures'] += 1
                 fails.append(((a, b), '%s on (%r, %r) = %r but dpkg orders them %r' % (how, a, b, r2, s)))
+    # one long-lived version compared with many short-lived ones, one after the other
+    st2 = ctx.stream('prop:one-version-against-many')
+    pivots = [a for a, _ in vv[:ctx.n(200, 2000)]]
+    others = [b for _, b in vv[:400]]
+    for a in pivots:
+        pivot = dv.Version.from_string(a)
+        for b in others[:60]:
+            st2['cases'] += 1
+            want = dv.compare_versions(a, b)
+            got = pivot.compare(dv.Version.from_string(b))
+            got2 = dv.compare_version_objects(pivot, dv.Version.from_string(b))
+            if got != want or got2 != want:
+                st2['prop_failures'] += 1
+                fails.append(((a, b), 'a long-lived Version(%r) compared with a new Version(%r) answers %r / %r; compare_versions on the strings answers %r' % (a, b, got, got2, want)))
+                break
     hist = {}
     for a, b in vv:
         hist[min(len(a) + len(b), 200) // 20 * 20] = hist.get(min(len(a) + len(b), 200) // 20 * 20, 0) + 1
